@@ -32,7 +32,7 @@ RULE = ("random objective/box/N=1..5/density/r/eps/itersLimit (limits biased to 
         "in part of the cases); per problem a set of compositions of k<=7 (all 2^(k-1) of them for every k in thorough when the "
         "run is short, else random ones), plus random long compositions with parts up to 40 and zero-size batches. explored "
         "counts (problem, composition) pairs; distinct by that pair; non-trivial if the composition has >= 2 parts or "
-        "overshoots the stop index, and the run has >= 3 trials.")
+        "overshoots the stop index, and the run has >= 3 trials; in 20% of the problems a second live solver is stepped between the batches.")
 
 
 def seq(run):
@@ -65,7 +65,7 @@ def check_case(case):
     """case["compositions"]: list of lists of batch sizes"""
     vs = []
     info = {"compositions": 0, "overshoot": 0, "float_collapse": 0}
-    base = {k: v for k, v in case.items() if k != "compositions"}
+    base = {k: v for k, v in case.items() if k not in ("compositions", "companion")}
     comps = [list(c) for c in case["compositions"]]
     kmax = max([sum(c) for c in comps] + [0])
     cap = 4 * max(case["lim"], kmax, 16) + 64
@@ -75,6 +75,8 @@ def check_case(case):
     def fail(clause, obs, comp=None):
         # a reference-stage failure is replayed with the longest composition (it fixes the length of the single-step run)
         c = dict(base, compositions=[comp] if comp is not None else ([longest] if longest is not None else []))
+        if case.get("companion"):
+            c["companion"] = case["companion"]
         vs.append(oc.violation(PROP, c, clause, obs))
 
     try:
@@ -118,9 +120,12 @@ def check_case(case):
             info["overshoot"] += 1
         try:
             run = oc.Run(base, cap=cap)
+            mate = oc.Run(case["companion"]) if case.get("companion") else None
             for b in comp:
                 if not run.iterate(b):
                     break
+                if mate is not None:       # another live solver moves between the batches: the sequence must not notice
+                    mate.iterate(1)
             s1 = seq(run)
             kk = min(k, Kc)
             if s1 != E[:kk] or bool(run.collapsed) != (k > Kc):
@@ -171,6 +176,8 @@ def gen(r, tier):
     for _ in range(3):          # long / irregular ones, zero-size batches included
         comps.append([r.choice([0, 1, 2, 3, 5, 8, 13, 40]) for _ in range(r.randint(1, 6))])
     case["compositions"] = comps
+    if r.random() < 0.2:
+        case["companion"] = oc.gen_case(r, lim=200)     # a second solver that is stepped between the batches of the first
     return case
 
 
